@@ -258,7 +258,7 @@ pub fn property() -> Property {
     Property {
         id: "C10",
         level: "exploration",
-        rule: "ident: exhaustive - 8 base files (a bare header and a richer generated file for each class x order) with EI_DATA, EI_CLASS, EI_VERSION each set to all 256 values, every single-byte magic corruption (bare headers; a sixteenth of them on the rich files) and 24 pseudo-random 4-byte magics, x {LittleEndian, BigEndian, AnyEndian, NativeEndian} x {ElfBytes::minimal_parse, ElfStream::open_stream (reader cursor initially at 0, 4 or 16), file::parse_ident}; with exactly one defect the expected result is UnsupportedElfEndianness(b) / UnsupportedElfClass(b) / UnsupportedVersion((b,_)) / BadMagic(found bytes) carrying the bytes found, LE accepts only 1, BE only 2, Any both, Native = host order; combinations with two defects or another valid value are skipped (counted). equiv: generated files (40% with overrides/corruption): opens under AnyEndian iff under the matching fixed spec, then the full query-digest vector (headers, section data, typed views, names, symbol tables, dynamic, hash lookups, version queries) is identical; the other fixed spec rejects with UnsupportedElfEndianness(EI_DATA); no spec whose set contains EI_DATA ever reports UnsupportedElfEndianness, whatever the rest of the file holds (header fields overridden with boundary, byte-swapped and raw values). Non-trivial: an ident case expected to be rejected, or an equivalence case that opened with at least one section.",
+        rule: "ident: exhaustive - 8 base files (a bare header and a richer generated file for each class x order) with EI_DATA, EI_CLASS, EI_VERSION each set to all 256 values, every single-byte magic corruption (bare headers; a sixteenth of them on the rich files) and 24 pseudo-random 4-byte magics, x {LittleEndian, BigEndian, AnyEndian, NativeEndian} x {ElfBytes::minimal_parse, ElfStream::open_stream (reader cursor initially at 0, 4 or 16; short reads of 1, 7 or 15/3 bytes and/or ErrorKind::Interrupted every third read), file::parse_ident}; with exactly one defect the expected result is UnsupportedElfEndianness(b) / UnsupportedElfClass(b) / UnsupportedVersion((b,_)) / BadMagic(found bytes) carrying the bytes found, LE accepts only 1, BE only 2, Any both, Native = host order; combinations with two defects or another valid value are skipped (counted). equiv: generated files (40% with overrides/corruption): opens under AnyEndian iff under the matching fixed spec, then the full query-digest vector (headers, section data, typed views, names, symbol tables, dynamic, hash lookups, version queries) is identical; the other fixed spec rejects with UnsupportedElfEndianness(EI_DATA); no spec whose set contains EI_DATA ever reports UnsupportedElfEndianness, whatever the rest of the file holds (header fields overridden with boundary, byte-swapped and raw values). Non-trivial: an ident case expected to be rejected, or an equivalence case that opened with at least one section.",
         assumptions: &["little-endian host for the NativeEndian clause"],
         subs: vec![Sub::enumerated("ident", oracle_ident, enum_ident, true), Sub::new("equiv", oracle_equiv, 1400, 600_000, 20_000_000).shrink(1500)],
         extras: vec![crate::fuzz::c10_choice],
